@@ -264,7 +264,7 @@ def cmdLit (args : List String) : String :=
 def fmtFrame : Frame → String
   | .run b p => s!"run({b},{p})"
   | .m _ _ => "match"
-  | .w _ _ => "wait"
+  | .w _ _ _ => "wait"
   | .c _ _ alts _ => s!"case[{alts.length}]"
   | .loopMark id _ => s!"loop{id}"
   | .tryMark _ _ h => s!"try->{h}"
@@ -279,7 +279,8 @@ def cmdRefine (args : List String) : String :=
   | [sd, sl, lim, ps, ms] =>
     match parseProg ps, parseMachine ms with
     | .ok p, .ok M =>
-      let o : SemOpts := { strictDone := sd.startsWith "1", substLast := sl = "1", dropLoose := sd.endsWith "L" }
+      let o : SemOpts := { strictDone := sd.startsWith "1", substLast := sl = "1", dropLoose := sd.toList.contains 'L',
+                           waitEndForeach := sd.toList.contains 'E' }
       let spec := Src.sm p o
       let mach := M.smS o
       let r := explore spec mach nSym lim.toNat!
@@ -292,7 +293,12 @@ def cmdRefine (args : List String) : String :=
         let r2 := exploreWith (stepCheckF spec mach) spec mach nSym lim.toNat!
         match r2.mismatch with
         | some (w, ps, x) =>
-          s!"mismatch word={symStr w} sym={x} spec=[{",".intercalate ((ps.a.getD []).map fmtFrame)}] mach={ps.b} aLeads={ps.aLeads} lag=[{" ".intercalate (ps.lag.map fmtEv)}] treeSpec={fmtPathsS (spec.tree ps.a x)} treeMach={fmtPaths (mach.tree ps.b x)}"
+          let strictInfo := match r.mismatch with
+            | some (w0, ps0, x0) =>
+              let spec0 := Src.sm p o
+              s!" STRICT word={symStr w0} sym={x0} spec=[{",".intercalate ((ps0.a.getD []).map fmtFrame)}] mach={ps0.b} aLeads={ps0.aLeads} lag=[{" ".intercalate (ps0.lag.map fmtEv)}] treeSpec={fmtPathsS (spec0.tree ps0.a x0)} treeMach={fmtPaths (mach.tree ps0.b x0)}"
+            | none => ""
+          s!"mismatch word={symStr w} sym={x} spec=[{",".intercalate ((ps.a.getD []).map fmtFrame)}] mach={ps.b} aLeads={ps.aLeads} lag=[{" ".intercalate (ps.lag.map fmtEv)}] treeSpec={fmtPathsS (spec.tree ps.a x)} treeMach={fmtPaths (mach.tree ps.b x)}{strictInfo}"
         | none =>
           if r2.outOfFuel then s!"fuel visited={r2.visited.size}"
           else
